@@ -184,11 +184,46 @@ Example C12_ex_deferred_applied :
   | _ => False end.
 Proof. vm_compute. repeat split; discriminate. Qed.
 
-(** ** 7. (stretch) C12_midpass_noninterference — NOT PROVED.
-    Full statement: for [s ≈ t] (equal except [pending] fields, [setDuring], [setRemoved]) and
-    plans [p], [q] that differ only in [ASet]/[AUpdate] actions, [passLoop fuel p s al] and
-    [passLoop fuel q t al] end in ≈-related states with the same log, error and blamed node.
-    What is proved instead: the write itself changes nothing a computation reads (3. above and
-    [C12_midpass_set_frame]); the recompute cycle never applies it (5.); it is applied at the end
-    (6.).  Missing: the simulation of every function called from [recomputeNodeSerial]
-    (in particular [bindLhsStabilize] and the teardown under it) for ≈. *)
+(** ** 7. (stretch) A mid-pass write does not alter what the pass computes — PARTIAL.
+    Full statement (C12_midpass_noninterference): for [s ≈ t] (equal except [pending] fields,
+    [setDuring], [setRemoved]) and plans [p], [q] that differ only in [ASet]/[AUpdate] actions,
+    [passLoop fuel p s al] and [passLoop fuel q t al] end in ≈-related states with the same log,
+    error and blamed node.
+    Proved: the same for ONE recompute ([recomputeNodeSerial]) of any node that is not a bind's
+    lhs-change node, with ≈ = [pendOnly] (which also fixes [setRemoved]).  Missing: the simulation
+    of [bindLhsStabilize] and of everything under it (relinking, height adjustment, teardown —
+    [zeroNode] moves a var from [setDuring] to [setRemoved], which is why the full ≈ must let
+    [setRemoved] differ), and the lifting over [recomputeChain] / [passLoop] (a plain induction
+    once every recompute is covered). *)
+Theorem C12_midpass_noninterference_recompute_partial :
+  forall fuel p q s t n s' e1 imm1 t' e2 imm2,
+  status s = 1 -> pendOnly s t ->
+  (forall w, firstFault (actions_of p n w) = firstFault (actions_of q n w)) ->
+  (forall b, nkind (nd s n) <> KBindLhs b) ->
+  recomputeNodeSerial fuel p s n = Ok (s', e1, imm1) ->
+  recomputeNodeSerial fuel q t n = Ok (t', e2, imm2) ->
+  pendOnly s' t' /\ e1 = e2 /\ imm1 = imm2 /\ log t' = log s'.
+Proof. exact C12_midpass_noninterference_recompute_partial. Qed.
+Print Assumptions C12_midpass_noninterference_recompute_partial.
+
+Theorem C12_pendOnly_fields : forall s s' m, pendOnly s s' ->
+  nkind (nd s' m) = nkind (nd s m) /\ decl (nd s' m) = decl (nd s m) /\ value (nd s' m) = value (nd s m) /\
+  recomputedAt (nd s' m) = recomputedAt (nd s m) /\ changedAt (nd s' m) = changedAt (nd s m) /\
+  height (nd s' m) = height (nd s m) /\ valid (nd s' m) = valid (nd s m) /\
+  parents (nd s' m) = parents (nd s m) /\ children (nd s' m) = children (nd s m) /\
+  observers (nd s' m) = observers (nd s m) /\ scope (nd s' m) = scope (nd s m) /\
+  isNecessary (nd s' m) = isNecessary (nd s m).
+Proof. exact pendOnly_fields. Qed.
+Print Assumptions C12_pendOnly_fields.
+
+(* the same recompute of the map (node 1), once with a plan that writes the var and once with the
+   write-free plan: same value, same log, same immediate child; only [pending] / [setDuring] differ *)
+Example C12_ex_noninterference :
+  let s := reach (ex12 ++ [SetVar 0%nat 4]) <| status := 1 |> in
+  match recomputeNodeSerial 10 [(1%nat, WFn, ASet 0%nat 9)] s 1%nat, recomputeNodeSerial 10 [] s 1%nat with
+  | Ok (s1, e1, i1), Ok (s2, e2, i2) =>
+      e1 = e2 /\ i1 = i2 /\ log s1 = log s2 /\ value (nd s1 1%nat) = 5 /\ value (nd s2 1%nat) = 5 /\
+      heap s1 = heap s2 /\ pending (nd s1 0%nat) = Some 9 /\ pending (nd s2 0%nat) = None /\
+      setDuring s1 = [0%nat] /\ setDuring s2 = []
+  | _, _ => False end.
+Proof. vm_compute. repeat split. Qed.
